@@ -20,27 +20,35 @@ from ..stategraph import bfs, fingerprint
 PROPERTY = 'C17'
 LEVEL = 'model_checking'
 LEVEL_TEXT = ("Explicit-state search over the real Input and InputExp blocks for every combination "
-              "of allowed/check/schema from a catalogue: every value of a 10-element domain put in "
+              "of allowed/check/schema from a catalogue: every value of a 16-element domain put in "
               "every reachable canonical state; the graph closes, so the result holds for put "
               "sequences of any length over the domain; plus every initdef/expired/persistent value.")
-LEVEL_NOTE = ("Validator catalogue 4x4x4, value domain {0,1,2,'1','x',None,1.0,True,(1,),[1]} "
-              "(one unhashable on purpose); canonical state = simple instance attributes + FSM state.")
+LEVEL_NOTE = ("Validator catalogue 4x4x4 (thorough 8x7x8), 16-value domain incl. equal-but-different "
+              "values, None, '', an unhashable list; canonical state = simple instance attributes + FSM state.")
 TECHNIQUE = "explicit-state model checking of the implementation (closed state graph) vs. accept() predicate"
 RULE = ("config = (block kind, allowed, check, schema); BFS over put sequences with canonical state "
         "dedup; outcome = (config, state, value, result, new output); distinct = distinct tuples")
 ASSUMPTIONS = ["validator functions are pure", "membership in 'allowed' means equality with a member"]
 
-ALLOWED = {'none': None, 's12': {1, 2}, 'empty': set(), 'l1a': [1, 'a']}
+ALLOWED = {'none': None, 's12': {1, 2}, 'empty': set(), 'l1a': [1, 'a'],
+           # thorough only:
+           't1232': (1, 2, 3, 2), 'str': 'abc', 'fs': frozenset({None, 0}), 'd': {'x': 1, 2: 2}}
 CHECK = {'none': None, 'isint': lambda v: isinstance(v, int), 'truthy': bool,
-         'never': lambda v: False}
+         'never': lambda v: False,
+         # thorough only:
+         'notnone': lambda v: v is not None, 'hashable': lambda v: not isinstance(v, list),
+         'returns0': lambda v: 0 if v == 2 else 'yes'}
 
 
 def _raises(v):
     raise RuntimeError("schema always raises")
 
 
-SCHEMA = {'none': None, 'int': int, 'dbl': lambda v: v * 2, 'raises': _raises}
-D = [0, 1, 2, '1', 'x', None, 1.0, True, (1,), [1]]
+SCHEMA = {'none': None, 'int': int, 'dbl': lambda v: v * 2, 'raises': _raises,
+          # thorough only:
+          'str': str, 'tonone': lambda v: None, 'neg': lambda v: -v, 'len': len}
+D = [0, 1, 2, '1', 'x', None, 1.0, True, (1,), [1], -1, 'a', '', 3, 2.5, frozenset()]
+QUICK_KEYS = 4       # the first four entries of each catalogue form the quick tier
 
 
 def accept(a, c, s, v):
@@ -60,10 +68,11 @@ def accept(a, c, s, v):
 
 def configs(tier):
     out = []
+    nk = QUICK_KEYS if tier == 'quick' else None
     for kind in ('Input', 'InputExp'):
-        for a in ALLOWED:
-            for c in CHECK:
-                for s in SCHEMA:
+        for a in list(ALLOWED)[:nk]:
+            for c in list(CHECK)[:nk]:
+                for s in list(SCHEMA)[:nk]:
                     out.append(dict(kind=kind, mode='graph', a=a, c=c, s=s))
                     out.append(dict(kind=kind, mode='ctor', a=a, c=c, s=s))
                     if kind == 'Input':
